@@ -130,11 +130,18 @@ class Ctx:
 
 
 def load_known(prop):
+    items = []
     try:
         with open(KF_FILE) as f:
             items = json.load(f)
     except FileNotFoundError:
-        return []
+        pass
+    d = os.path.join(VERIF, 'known_findings.d')
+    if os.path.isdir(d):
+        for fn in sorted(os.listdir(d)):
+            if fn.endswith('.json'):
+                with open(os.path.join(d, fn)) as f:
+                    items += json.load(f)
     return [k for k in items if k.get('property') == prop and k.get('status') == 'known']
 
 
